@@ -750,3 +750,293 @@ Theorem wf_reachable : forall U c tr, WF (x_state (exec U c tr)).
 Proof.
   intros. apply exec_state_ind; [apply wf_init|]. intros. eapply wf_step; eauto.
 Qed.
+
+(* ================================================================== *)
+(* Invocations                                                          *)
+
+Definition final_reply (req : id) (m : cmsg) : bool :=
+  match m with
+  | CYield r _ false => r =? req
+  | CErrorInv r IECanceled | CErrorInv r IEApp => r =? req
+  | _ => false
+  end.
+
+Fixpoint count_final (req : id) (outs : list out) : nat :=
+  match outs with
+  | [] => 0
+  | OSend m :: r => ((if final_reply req m then 1 else 0) + count_final req r)%nat
+  | _ :: r => count_final req r
+  end.
+
+Lemma inv_replace_lookup : forall l i i', inv_by_req l (i_req i') = Some i ->
+  i_reg i = i_reg i' -> i_req i = i_req i' ->
+  inv_by_req (inv_replace l i') (i_req i') = Some i'.
+Proof.
+  induction l as [|i0 r IH]; simpl; intros i i' H E1 E2; [discriminate|].
+  destruct (i_req i0 =? i_req i') eqn:E.
+  - inversion H; subst i0. unfold inv_key_eqb. rewrite E1, E2, !N.eqb_refl. simpl. rewrite N.eqb_refl. reflexivity.
+  - unfold inv_key_eqb. rewrite E, andb_false_r. simpl. rewrite E. eapply IH; eauto.
+Qed.
+
+Lemma inv_gc_lookup : forall l req i, inv_by_req (inv_gc l) req = Some i -> In i l /\ i_req i = req.
+Proof.
+  induction l as [|i0 r IH]; simpl; intros req i H; [discriminate|].
+  destruct (i_queue_alive i0 || i_outer i0 || i_running i0).
+  - simpl in H. destruct (i_req i0 =? req) eqn:E.
+    + inversion H; subst. apply N.eqb_eq in E. auto.
+    + destruct (IH _ _ H). auto.
+  - destruct (IH _ _ H). auto.
+Qed.
+
+Lemma inv_replace_in : forall l i' i, In i (inv_replace l i') -> i = i' \/ In i l.
+Proof.
+  induction l as [|i0 r IH]; simpl; intros i' i H; [destruct H|].
+  destruct (inv_key_eqb i0 (i_reg i') (i_req i')).
+  - destruct H as [H|H]; [left; auto|right; right; auto].
+  - destruct H as [H|H]; [right; left; auto|]. destruct (IH _ _ H); auto.
+Qed.
+
+Lemma disconnect_outs_shape : forall s s' outs x,
+  disconnect s = (s', outs) -> In x outs ->
+  x = ODone \/ (exists o k, x = OReturn o k RetNotConn) \/ (exists o, x = OCloseRet o false) \/ x = OPeerClosed.
+Proof.
+  intros s s' outs x H Hin. unfold disconnect in H.
+  destruct (s_connected s); [|inversion H; subst; destruct Hin].
+  destruct (disconnect_waiters (s_awaiting s)) as [[aw o1] os1] eqn:E. simpl in H.
+  assert (X : forall y, In y o1 -> exists o k, y = OReturn o k RetNotConn)
+    by (intros; eapply disconnect_waiters_only_returns; eauto).
+  destruct (s_closer s) as [[oc dl]|]; simpl in H; inversion H; subst; clear H.
+  - destruct Hin as [Hin|Hin]; [left; auto|]. apply in_app_or in Hin. destruct Hin as [Hin|Hin].
+    + right. left. apply X. exact Hin.
+    + simpl in Hin. destruct Hin as [Hin|[Hin|[]]]; subst; eauto.
+  - destruct Hin as [Hin|Hin]; [left; auto|]. right. left. apply X. exact Hin.
+Qed.
+
+Ltac lit_outs H Hin :=
+  revert H; repeat break_match; intro H; inversion H; subst; simpl in Hin; intuition discriminate.
+
+Ltac disc_outs E Hin :=
+  let X := fresh "X" in
+  destruct (disconnect_outs_shape _ _ _ _ E Hin) as [X|[X|[X|X]]];
+  [discriminate X
+  |let a := fresh in let b := fresh in destruct X as (a & b & X); discriminate X
+  |let a := fresh in destruct X as (a & X); discriminate X
+  |discriminate X].
+
+(* The user handler is started only by the invocation's own goroutine taking
+   the OLDEST queued chunk, while no chunk is being handled: chunks reach the
+   handler one at a time and in the order in which the INVOCATION messages
+   arrived (step_invocation appends to the queue of the SAME record). *)
+Theorem handler_start_step_proof : forall U s l s' outs h req reg t n p cdone,
+  step U s l = Ok s' outs -> In (OHandler h req reg t n p cdone) outs ->
+  l = InvStart req /\
+  exists i c q, inv_by_req (s_invs s) req = Some i /\ i_running i = false /\ i_queue_alive i = true /\
+    i_queue i = c :: q /\ c_tag c = t /\ c_n c = n /\ c_progress c = p /\ i_h i = h /\ i_reg i = reg /\
+    cdone = i_cancelled i /\ outs = [OHandler h req reg t n p cdone].
+Proof.
+  intros U s l s' outs h req reg t n p cdone H Hin.
+  destruct l; simpl in H.
+  - exfalso. lit_outs H Hin.
+  - exfalso. unfold step_api_start in H. lit_outs H Hin.
+  - exfalso. unfold step_router in H. destruct (negb (s_connected s)); [discriminate|].
+    destruct m; simpl in H;
+      try (unfold step_reply in H; lit_outs H Hin).
+    + unfold step_event in H. lit_outs H Hin.
+    + unfold step_invocation in H. lit_outs H Hin.
+    + unfold step_interrupt, cancel_inv in H. lit_outs H Hin.
+    + destruct (disconnect s) eqn:E. inversion H; subst. disc_outs E Hin.
+    + destruct (disconnect s) eqn:E. inversion H; subst. disc_outs E Hin.
+  - exfalso. unfold step_timer in H. lit_outs H Hin.
+  - exfalso. unfold step_ctx in H. lit_outs H Hin.
+  - exfalso. unfold step_ctx in H. lit_outs H Hin.
+  - exfalso. unfold step_api_finish in H.
+    destruct (fin_of (s_finishing s) o); [|discriminate].
+    destruct (f_op f); destruct (f_msg f); try discriminate;
+      revert H; repeat break_match; intro H; inversion H; subst; simpl in Hin;
+      try (intuition discriminate; fail);
+      (destruct Hin as [X|[X|X]]; try discriminate;
+       match goal with E : disconnect _ = _ |- _ => disc_outs E X end).
+  - unfold step_inv_start in H.
+    destruct (inv_by_req (s_invs s) req0) as [i|] eqn:Ei; [|discriminate].
+    destruct (i_queue_alive i && negb (i_running i) && i_more i) eqn:Ec; [|discriminate].
+    destruct (i_queue i) as [|c q] eqn:Eq; [discriminate|].
+    inversion H; subst; clear H. destruct Hin as [X|[]]. inversion X; subst.
+    apply andb_true_iff in Ec. destruct Ec as [Ec _]. apply andb_true_iff in Ec. destruct Ec as [Ea Er].
+    split; [reflexivity|]. exists i, c, q. repeat split; auto.
+    destruct (i_running i); [discriminate|reflexivity].
+  - exfalso. unfold step_inv_exit in H. lit_outs H Hin.
+  - exfalso. unfold step_handler_return in H. lit_outs H Hin.
+  - exfalso. unfold step_send_prog in H. lit_outs H Hin.
+  - exfalso. unfold step_inv_timeout, cancel_inv in H. lit_outs H Hin.
+  - exfalso. unfold step_chunk in H. lit_outs H Hin.
+  - exfalso. unfold step_chunk in H. lit_outs H Hin.
+  - exfalso. unfold step_close_start, finish_close in H. lit_outs H Hin.
+  - exfalso. unfold step_close_timer in H. revert H. repeat break_match; try discriminate.
+    intro H. inversion H; subst. match goal with E : disconnect _ = _ |- _ => disc_outs E Hin end.
+  - exfalso. revert H. repeat break_match; try discriminate.
+    intro H. inversion H; subst. match goal with E : disconnect _ = _ |- _ => disc_outs E Hin end.
+Qed.
+
+Lemma count_final_no_send : forall req outs, (forall x, In x outs -> forall m, x <> OSend m) -> count_final req outs = 0%nat.
+Proof.
+  induction outs as [|x r IH]; simpl; intro H; auto.
+  destruct x; try (apply IH; intros; apply H; auto).
+  exfalso. eapply (H (OSend m)); auto.
+Qed.
+
+Lemma disconnect_count_final : forall s s' outs req, disconnect s = (s', outs) -> count_final req outs = 0%nat.
+Proof.
+  intros. apply count_final_no_send. intros x Hin m E. subst.
+  disc_outs H Hin.
+Qed.
+
+(* A second INVOCATION for a (registration, request) whose queue exists is
+   queued for the SAME run: no new record, no new goroutine, no output. *)
+Theorem repeated_invocation_same_run_proof : forall U s req reg d a h i,
+  s_connected s = true -> alookup (s_ihandlers s) reg = Some h -> ppt_scheme d = None ->
+  inv_find (s_invs s) reg req = Some i -> i_queue_alive i = true ->
+  exists s', step U s (RouterMsg (RInvocation req reg d a)) = Ok s' [] /\
+    s_invs s' = inv_replace (s_invs (update_last_recv s req))
+      (upd_inv i (i_queue i ++ [{| c_tag := atag a; c_n := List.length a; c_progress := bool_ok (dget d "progress") |}])
+         true (i_running i) (i_more i) (i_cancelled i) (i_outer i) (i_recvprog i)).
+Proof.
+  intros U s req reg d a h i Hc Hh Hp Hi Ha. simpl. unfold step_router. rewrite Hc. simpl.
+  unfold step_invocation. rewrite Hh, Hp, Hi, Ha. eexists. split; reflexivity.
+Qed.
+
+(* An INVOCATION whose request id is not new (IsNewRecvID) and for which no
+   queue exists is dropped silently: no handler run, no reply, no state change. *)
+Theorem stale_invocation_ignored_proof : forall U s req reg d a h,
+  s_connected s = true -> alookup (s_ihandlers s) reg = Some h -> ppt_scheme d = None ->
+  (forall i, inv_find (s_invs s) reg req = Some i -> i_queue_alive i = false) ->
+  is_new_recv_id (s_last_recv s) req = false ->
+  step U s (RouterMsg (RInvocation req reg d a)) = Ok s [].
+Proof.
+  intros U s req reg d a h Hc Hh Hp Hq Hn. simpl. unfold step_router. rewrite Hc. simpl.
+  unfold step_invocation. rewrite Hh, Hp, Hn.
+  destruct (inv_find (s_invs s) reg req) as [i|] eqn:Ei; [|reflexivity].
+  rewrite (Hq i eq_refl). reflexivity.
+Qed.
+
+(* INTERRUPT (and the invocation's own timeout) cancel the handler's context;
+   the ERROR "canceled" is sent iff the invocation had not been answered yet. *)
+Theorem interrupt_cancels_ctx_proof : forall U s req i,
+  s_connected s = true -> inv_by_req (s_invs (update_last_recv s req)) req = Some i -> i_outer i = true ->
+  exists s' outs, step U s (RouterMsg (RInterrupt req)) = Ok s' outs /\
+    outs = (if negb (i_cancelled i) then [OSend (CErrorInv req IECanceled)] else []) /\
+    (forall i', inv_by_req (s_invs s') req = Some i' -> In i' (s_invs (update_last_recv s req)) \/
+        (i_cancelled i' = true /\ i_outer i' = false)).
+Proof.
+  intros U s req i Hc Hi Ho. simpl. unfold step_router. rewrite Hc. simpl.
+  unfold step_interrupt. rewrite Hi, Ho. unfold cancel_inv. rewrite Ho.
+  assert (Hc' : s_connected (update_last_recv s req) = true).
+  { unfold update_last_recv. destruct (is_new_recv_id _ _); auto. }
+  rewrite Hc'. eexists. eexists. split; [reflexivity|]. split.
+  - assert (Er : i_req i = req).
+    { clear - Hi. induction (s_invs (update_last_recv s req)) as [|i0 r IH]; simpl in Hi; [discriminate|].
+      destruct (i_req i0 =? req) eqn:E; [inversion Hi; subst; apply N.eqb_eq; auto|auto]. }
+    rewrite Er. destruct (i_cancelled i); reflexivity.
+  - intros i' Hi'. simpl in Hi'. apply inv_gc_lookup in Hi'. destruct Hi' as [Hin _].
+    apply inv_replace_in in Hin. destruct Hin as [->|Hin]; [right; simpl; auto|left; auto].
+Qed.
+
+Lemma update_last_recv_invs : forall s r, s_invs (update_last_recv s r) = s_invs s.
+Proof. intros. unfold update_last_recv. destruct (is_new_recv_id _ _); reflexivity. Qed.
+
+Lemma update_last_recv_conn : forall s r, s_connected (update_last_recv s r) = s_connected s.
+Proof. intros. unfold update_last_recv. destruct (is_new_recv_id _ _); reflexivity. Qed.
+
+Lemma inv_by_req_req : forall l req i, inv_by_req l req = Some i -> i_req i = req.
+Proof.
+  induction l as [|i0 r IH]; simpl; intros req i H; [discriminate|].
+  destruct (i_req i0 =? req) eqn:E; [inversion H; subst; apply N.eqb_eq; auto|auto].
+Qed.
+
+(* A final reply (YIELD without progress, ERROR canceled / application error)
+   for request req is sent only on behalf of the current invocation record of
+   req, while that record is unanswered, not cancelled and the client is
+   connected; at most one per step; and the step marks that record answered
+   (its outer goroutine is gone).  Hence: never a second YIELD / ERROR for
+   the same run, and the reply carries the invocation's own request id. *)
+Theorem final_reply_once_step_proof : forall U s l s' outs req,
+  step U s l = Ok s' outs -> (0 < count_final req outs)%nat ->
+  count_final req outs = 1%nat /\ s_connected s = true /\
+  exists i i', s_invs s' = inv_gc (inv_replace (s_invs s) i') /\
+    inv_by_req (s_invs s) req = Some i /\ i_outer i = true /\ i_cancelled i = false /\
+    i_outer i' = false /\ i_req i' = req /\ i_reg i' = i_reg i.
+Proof.
+  intros U s l s' outs req H Hc.
+  assert (LIT : forall P : Prop, count_final req outs = 0%nat -> P) by (intros; lia).
+  destruct l; simpl in H.
+  - apply LIT. revert H. repeat break_match; intro H; inversion H; subst; reflexivity.
+  - apply LIT. unfold step_api_start in H. revert H. repeat break_match; intro H; inversion H; subst; try reflexivity;
+      destruct p; reflexivity.
+  - unfold step_router in H. destruct (negb (s_connected s)) eqn:Econ; [discriminate|].
+    destruct m; simpl in H;
+      try (apply LIT; unfold step_reply in H; revert H; repeat break_match; intro H; inversion H; subst; reflexivity).
+    + apply LIT. unfold step_event in H. revert H. repeat break_match; intro H; inversion H; subst; reflexivity.
+    + apply LIT. unfold step_invocation in H. revert H. repeat break_match; intro H; inversion H; subst; reflexivity.
+    + (* INTERRUPT *)
+      unfold step_interrupt in H. rewrite update_last_recv_invs in H.
+      destruct (inv_by_req (s_invs s) req0) as [i|] eqn:Ei; [|apply LIT; inversion H; subst; reflexivity].
+      destruct (i_outer i) eqn:Eo; [|apply LIT; inversion H; subst; reflexivity].
+      unfold cancel_inv in H. rewrite Eo, update_last_recv_conn, update_last_recv_invs in H. simpl in H.
+      pose proof (inv_by_req_req _ _ _ Ei) as Eq. rewrite Eq in H.
+      destruct (negb (i_cancelled i) && s_connected s) eqn:E2; inversion H; subst; clear H;
+        [|simpl in Hc; lia].
+      simpl in Hc. destruct (i_req i =? req) eqn:Er; [|simpl in Hc; lia].
+      apply N.eqb_eq in Er. subst req. apply andb_true_iff in E2. destruct E2 as [E2 E3].
+      simpl. rewrite N.eqb_refl. split; [reflexivity|]. split; [exact E3|].
+      eexists i, _. split; [simpl; rewrite ?update_last_recv_invs; reflexivity|].
+      repeat split; auto. destruct (i_cancelled i); [discriminate|reflexivity].
+    + apply LIT. destruct (disconnect s) eqn:E. inversion H; subst. eapply disconnect_count_final; eauto.
+    + apply LIT. destruct (disconnect s) eqn:E. inversion H; subst. eapply disconnect_count_final; eauto.
+  - apply LIT. unfold step_timer in H. revert H. repeat break_match; intro H; inversion H; subst; reflexivity.
+  - apply LIT. unfold step_ctx in H. revert H. repeat break_match; intro H; inversion H; subst; reflexivity.
+  - apply LIT. unfold step_ctx in H. revert H. repeat break_match; intro H; inversion H; subst; reflexivity.
+  - apply LIT. unfold step_api_finish in H.
+    destruct (fin_of (s_finishing s) o); [|discriminate].
+    destruct (f_op f); destruct (f_msg f); try discriminate;
+      revert H; repeat break_match; intro H; inversion H; subst; try reflexivity;
+      simpl; eapply disconnect_count_final; eauto.
+  - apply LIT. unfold step_inv_start in H. revert H. repeat break_match; intro H; inversion H; subst; reflexivity.
+  - apply LIT. unfold step_inv_exit in H. revert H. repeat break_match; intro H; inversion H; subst; reflexivity.
+  - (* HandlerReturn *)
+    unfold step_handler_return in H.
+    destruct (inv_by_req (s_invs s) req0) as [i|] eqn:Ei; [|discriminate].
+    destruct (negb (i_running i)); [discriminate|].
+    destruct (i_outer i && negb (i_cancelled i) && s_connected s) eqn:E2.
+    + apply andb_true_iff in E2. destruct E2 as [E2 E3]. apply andb_true_iff in E2. destruct E2 as [E1 E2].
+      destruct r; inversion H; subst; clear H; simpl in Hc; try lia;
+        (destruct (req0 =? req) eqn:Er; [|simpl in Hc; lia]);
+        apply N.eqb_eq in Er; subst req0; simpl; rewrite N.eqb_refl;
+        (split; [reflexivity|]); (split; [exact E3|]);
+        eexists i, _; (split; [simpl; reflexivity|]); repeat split; auto;
+        try (destruct (i_cancelled i); [discriminate|reflexivity]);
+        try (simpl; eapply inv_by_req_req; eauto).
+    + apply LIT. destruct r; inversion H; subst; reflexivity.
+  - apply LIT. unfold step_send_prog in H. revert H. repeat break_match; intro H; inversion H; subst; reflexivity.
+  - (* InvTimeout *)
+    unfold step_inv_timeout in H.
+    destruct (inv_by_req (s_invs s) req0) as [i|] eqn:Ei; [|discriminate].
+    destruct (i_deadline i); [|discriminate].
+    match type of H with (if ?c then _ else _) = _ => destruct c eqn:E0; [|discriminate] end.
+    apply andb_true_iff in E0. destruct E0 as [E0 Eo]. apply andb_true_iff in E0. destruct E0 as [_ Ecn].
+    unfold cancel_inv in H. rewrite Eo in H. simpl in H.
+    pose proof (inv_by_req_req _ _ _ Ei) as Eq. rewrite Eq in H.
+    destruct (negb (i_cancelled i) && s_connected s) eqn:E2; inversion H; subst; clear H;
+      [|simpl in Hc; lia].
+    simpl in Hc. destruct (i_req i =? req) eqn:Er; [|simpl in Hc; lia].
+    apply N.eqb_eq in Er. subst req. apply andb_true_iff in E2. destruct E2 as [E2 E3].
+    simpl. rewrite N.eqb_refl. split; [reflexivity|]. split; [exact E3|].
+    eexists i, _. split; [simpl; reflexivity|].
+    repeat split; auto; try (simpl; eapply inv_by_req_req; eauto).
+    destruct (i_cancelled i); [discriminate|reflexivity].
+  - apply LIT. unfold step_chunk in H. revert H. repeat break_match; intro H; inversion H; subst; reflexivity.
+  - apply LIT. unfold step_chunk in H. revert H. repeat break_match; intro H; inversion H; subst; reflexivity.
+  - apply LIT. unfold step_close_start, finish_close in H. revert H. repeat break_match; intro H; inversion H; subst; reflexivity.
+  - apply LIT. unfold step_close_timer in H. revert H. repeat break_match; try discriminate.
+    intro H. inversion H; subst. eapply disconnect_count_final; eauto.
+  - apply LIT. revert H. repeat break_match; try discriminate.
+    intro H. inversion H; subst. eapply disconnect_count_final; eauto.
+Qed.
